@@ -729,11 +729,15 @@ func main() {
 	bk := constString(bin, "binaryQuantizerThresholdKey")
 	pk1 := constString(prod, "productQuantizerCentroidDistsKey")
 	pk2 := constString(prod, "productQuantizerFlatCentroidsKey")
+	keyBytes := func(k string) string { return blist([]byte(k)) }
 	fmt.Fprintf(&sb, "def binaryThresholdKey : String := %q\n", bk)
+	fmt.Fprintf(&sb, "def binaryThresholdKeyBytes : Bytes := %s\n", keyBytes(bk))
 	fmt.Fprintf(&sb, "def binaryFlushPutsThreshold : Bool := %v\n", callsOnKey(binFlush, "Put", "binaryQuantizerThresholdKey"))
 	fmt.Fprintf(&sb, "def binaryNewGetsThreshold : Bool := %v\n", callsOnKey(binNew, "Get", "binaryQuantizerThresholdKey"))
 	fmt.Fprintf(&sb, "def productCentroidDistsKey : String := %q\n", pk1)
 	fmt.Fprintf(&sb, "def productFlatCentroidsKey : String := %q\n", pk2)
+	fmt.Fprintf(&sb, "def productCentroidDistsKeyBytes : Bytes := %s\n", keyBytes(pk1))
+	fmt.Fprintf(&sb, "def productFlatCentroidsKeyBytes : Bytes := %s\n", keyBytes(pk2))
 	fmt.Fprintf(&sb, "def productFlushPutsCentroids : Bool := %v\n", callsOnKey(prodFlush, "Put", "productQuantizerCentroidDistsKey") && callsOnKey(prodFlush, "Put", "productQuantizerFlatCentroidsKey"))
 	fmt.Fprintf(&sb, "def productNewGetsCentroids : Bool := %v\n\n", callsOnKey(prodNew, "Get", "productQuantizerCentroidDistsKey") && callsOnKey(prodNew, "Get", "productQuantizerFlatCentroidsKey"))
 	fmt.Fprintf(&sb, "/- bounded insertion of flat.Search: `len(res) == cap(res) && dist <skipOp> last` skips; the swap loop\nruns `for i := len-1; i > <loopLow> && d[i] <swapOp> d[i-1]; i--` -/\n")
